@@ -118,6 +118,19 @@ def nontrivial(prop, cells):
 RULES = {}
 
 
+def cell_heads(cells, top=60):
+    """judged events grouped by the leading two fields of their coverage cell (what kind of event the monitor saw)"""
+    out = {}
+    for c, n in cells.items():
+        try:
+            t = json.loads(c)
+            h = " / ".join(str(x) for x in t[:2]) if isinstance(t, list) else str(t)
+        except Exception:
+            h = str(c)[:40]
+        out[h] = out.get(h, 0) + n
+    return dict(sorted(out.items(), key=lambda kv: -kv[1])[:top])
+
+
 def write_evidence(prop, tier, seed, m, wall, unknown, hits, problems, status):
     from pwv import props
     evdir = os.environ.get("PWV_EVIDENCE_DIR") or os.path.join(_env.VERIF, "evidence")  # scratch runs (seeded defects) write elsewhere
@@ -142,6 +155,7 @@ def write_evidence(prop, tier, seed, m, wall, unknown, hits, problems, status):
             "steps_executed": int(m["steps"]),
             "distinct_cells": len(m["cells"]),
             "events_by_kind": m["kinds"],
+            "judged_by_cell_head": cell_heads(m["cells"]),
             "inconclusive": m["inconclusive"],
             "handlers_reached": dict(sorted(m["handlers"].items(), key=lambda kv: -kv[1])[:60]),
             "known_finding_hits": {k: v[1] for k, v in hits.items()},
